@@ -78,7 +78,15 @@ impl Streams {
                 let mut stream = Stream::new();
                 stream.add_value(value, generation)?;
                 let descriptor = StreamDescriptor::global(stream);
-                self.streams.insert(name.to_string(), vec![descriptor]);
+                // there could be restricted streams with such a name that don't cover the position
+                // (e.g. a `next` inside a `new`), they must outlive this call, so the global one is
+                // put before them to keep the order of decreasing scopes
+                match self.streams.get_mut(name) {
+                    Some(descriptors) => descriptors.insert(0, descriptor),
+                    None => {
+                        self.streams.insert(name.to_string(), vec![descriptor]);
+                    }
+                }
             }
         }
         Ok(())
